@@ -1131,7 +1131,8 @@ fn plan(ctx: &Ctx) -> Plan {
             let v = match (table, start, q) {
                 (_, Start::Rows123, true) => continue,
                 (Table::IntPk, _, true) => (3, 4, 5),
-                (Table::Plain | Table::TextPk, _, true) => (3, 4, 4),
+                (Table::Plain, _, true) => (3, 4, 4),
+                (Table::TextPk, _, true) => (3, 3, 4),
                 (Table::Split, _, true) => (2, 3, 4),
                 (Table::Split, Start::Rows123, false) => continue,
                 (Table::Split, _, false) => (3, 5, 6),
